@@ -976,6 +976,8 @@ pub struct Universe {
     pub preds: Vec<String>,
     pub lits: Vec<String>,
     pub graphs: Vec<String>,
+    /// triples of the generated dataset: patterns are mostly derived from them so that answers are non-empty
+    pub seeds: Vec<(String, String, String)>,
 }
 pub fn universe(rng: &mut Rng) -> Universe {
     let ni = rng.range(2, 4);
@@ -994,11 +996,12 @@ pub fn universe(rng: &mut Rng) -> Universe {
         preds: (0..np).map(|i| format!("urn:p{}", i)).collect(),
         lits,
         graphs: (0..ng).map(|i| format!("urn:g{}", i)).collect(),
+        seeds: Vec::new(),
     }
 }
-pub fn gen_db(rng: &mut Rng, u: &Universe) -> Db {
+pub fn gen_db(rng: &mut Rng, u: &mut Universe) -> Db {
     let mut quads = Vec::new();
-    let n = rng.range(0, 14);
+    let n = rng.range(0, 16);
     for _ in 0..n {
         let s = rng.pick(&u.iris).clone();
         let p = rng.pick(&u.preds).clone();
@@ -1016,5 +1019,6 @@ pub fn gen_db(rng: &mut Rng, u: &Universe) -> Db {
             graphs.push(g.clone()); // possibly an empty named graph
         }
     }
+    u.seeds = quads.iter().map(|(s, p, o, _)| (s.clone(), p.clone(), o.clone())).collect();
     Db { quads, graphs }
 }
